@@ -149,3 +149,13 @@ Fixpoint unpack_fuel (fuel : nat) (data : bytes) : option tree :=
   end.
 
 Definition unpack (data : bytes) : option tree := unpack_fuel (List.length data) data.
+
+(* entry point of the correspondence run (harness/builders.py c04): the real tree's pack() bytes are read back by
+   the model's unpack; lock, unlocking script of the leaf at path p and pack of the result are compared with
+   ScriptNode.locking_script / ScriptLeaf.unlocking_script / ScriptNode.pack of the implementation *)
+Definition mt_check (H : bytes -> bytes) (packed : bytes) (p : list dir)
+  : option (bytes * option bytes * option bytes) :=
+  match unpack packed with
+  | Some (Node l r) => Some (lock H l r, unlock H (Node l r) p, pack_opt (Node l r))
+  | _ => None
+  end.
